@@ -20,6 +20,7 @@ import SphericalVerif.Props.Footprint
 #print axioms GenH.genH_size_indep
 #print axioms GenH.tabOK_ranges
 #print axioms GenHorner.gen_evaluate_row
+#print axioms GenHorner.gen_evaluate_rows
 #print axioms Footprint.step3_only
 #print axioms Footprint.step1_only
 #print axioms Footprint.step2_only
